@@ -255,7 +255,12 @@ static void chain_case(Tape& t, Ctx& c)
       for(long i = 0; i < m.r; ++i) for(long j = 0; j < m.c; ++j) { long oi = (long)pp[(size_t)(i / br)] * br + i % br, oj = (long)qq[(size_t)(j / bc)] * bc + j % bc; m(i, j) = src.model(oi, oj); m.st(i, j) = src.model.st(oi, oj); }
       if(src.kind == K_C64) src.c64.permute(P, Q); else if(src.kind == K_B22) src.b22.permute(P, Q); else src.b23.permute(P, Q);
       Dense before = src.model; src.model = m; check_slot(src, si, opname + " (forward)");
-      if(back) { Adjacency::Permutation Pi = P.inverse(), Qi = Q.inverse(); if(src.kind == K_C64) src.c64.permute(Pi, Qi); else if(src.kind == K_B22) src.b22.permute(Pi, Qi); else src.b23.permute(Pi, Qi); src.model = before; }
+      // the inverse is obtained through one of the three documented routes (chosen by the dimensions: no extra draw)
+      auto inv_of = [&](const Adjacency::Permutation& X, int route) { if(X.size() == 0 || route == 0) return X.inverse();
+        if(route == 1) return Adjacency::Permutation(X.size(), Adjacency::Permutation::ConstrType::inv_perm, X.get_perm_pos());
+        return Adjacency::Permutation(X.size(), Adjacency::Permutation::ConstrType::inv_swap, X.get_swap_pos()); };
+      static const char* rn[] = {"inverse()", "inv_perm", "inv_swap"}; const int rp = int((P.size() * 2 + Q.size()) % 3), rq = int((P.size() + Q.size() * 2 + 1) % 3);
+      if(back) { c.label(std::string("inverse-route:") + rn[rp]); c.label(std::string("inverse-route:") + rn[rq]); Adjacency::Permutation Pi = inv_of(P, rp), Qi = inv_of(Q, rq); if(src.kind == K_C64) src.c64.permute(Pi, Qi); else if(src.kind == K_B22) src.b22.permute(Pi, Qi); else src.b23.permute(Pi, Qi); src.model = before; }
       di = si; break; }
     case O_TO_C32: {
       opname = "convert:csr<float,u32>"; h.set("op", opname); hist.add(h); c.desc.set("history", hist); c.op = opname + "@" + kind_name[src.kind]; c.label("op:" + opname); c.announce();
